@@ -99,7 +99,10 @@ def table_contract(cls):
         if tv is None:
             return None
         n, lens = tv
-        return n, SEQMAX(lens, n, z3.IntVal(0))
+        sm = SEQMAX(lens, n, z3.IntVal(0))
+        # defining facts of the spec function max(..., default=0) used by the proofs: empty -> default, one row -> that row
+        c.seqmax_facts = z3.And(z3.Implies(n <= 0, sm == 0), z3.Implies(n == 1, sm == z3.Select(lens, 0)))
+        return n, sm
 
     def dim(c):
         r = c.result
@@ -122,7 +125,7 @@ def table_contract(cls):
         if sh is None or d is None or not isinstance(d[1], VInt):
             c.note = "result is not a TableDim with an int `columns` (or get_table() is not a list of rows): shape not recognised"
             return UNRECOGNISED
-        return ops.int_term(d[1]) == sh[1]
+        return z3.Implies(c.seqmax_facts, ops.int_term(d[1]) == sh[1])
 
     return FnContract(
         target=f"{DT}::{cls}.get_dim",
